@@ -223,6 +223,12 @@ def correspond(model_ok, res):
         (lambda: T.From(W("1")), lambda: T.From(W("1"), True), "from-default-flag"),
         (lambda: T.Range(W("1"), W("2"), True, False), lambda: T.Range(W("1"), W("2"), False, False), "range-low-flag"),
         (lambda: T.Range(W("1"), W("2"), True, False), lambda: T.Range(W("1"), W("2"), True, True), "range-high-flag"),
+        # the bracket next to a `*` bound still counts
+        (lambda: T.Range(W("1"), W("*"), True, False), lambda: T.Range(W("1"), W("*"), True, True), "range-high-flag-wildcard"),
+        (lambda: T.Range(W("*"), W("5"), False, True), lambda: T.Range(W("*"), W("5"), True, True), "range-low-flag-wildcard"),
+        (lambda: T.Range(W("*"), W("*"), False, False), lambda: T.Range(W("*"), W("*"), True, True), "range-flags-both-wildcards"),
+        (lambda: T.From(W("*"), True), lambda: T.From(W("*"), False), "from-flag-wildcard"),
+        (lambda: T.SearchField("f", T.Range(W("1"), W("*"), True, False)), lambda: T.SearchField("f", T.Range(W("1"), W("*"))), "range-default-flags-wildcard"),
     ]
     fixed_pairs = []
     for mk_s in (lambda: W("s"), lambda: T.Group(T.OrOperation(W("p"), W("q"))), lambda: T.NoneItem(),
